@@ -97,6 +97,9 @@ def run(tier, seed):
     # in / contains: arrays, strings, object keys; never an exception
     expect("$[?@ in [1, 'a', true]]", [1, "a", True, 2, "b", None, [1]], [1, "a", True], what="in list literal")
     expect("$[?'a' in @]", ["abc", "xyz", ["a"], {"a": 1}, {"b": 1}, 5, None, ["b"]], ["abc", ["a"], {"a": 1}], what="in: string, array, object keys")
+    expect("$[?'foo' in @.name]", [{"name": "seafood"}, {"name": "bar"}, {"name": ["foo"]}, {"name": {"foo": 1}}, {"name": "fo"}], [{"name": "seafood"}, {"name": ["foo"]}, {"name": {"foo": 1}}], what="in: a needle of several characters in a string")
+    expect("$[?@.name contains 'foo']", [{"name": "seafood"}, {"name": "bar"}, {"name": ["foo"]}, {"name": {"foo": 1}}, {"name": "fo"}], [{"name": "seafood"}, {"name": ["foo"]}, {"name": {"foo": 1}}], what="contains: a needle of several characters in a string")
+    expect("$[?'' in @]", ["abc", "", [""], []], ["abc", "", [""]], what="in: the empty needle")
     expect("$[?@ contains 'a']", ["abc", "xyz", ["a"], {"a": 1}, 5], ["abc", ["a"], {"a": 1}], what="contains")
     expect("$[?@ contains 2]", [[1, 2], [3], "2", {"2": 1}, 2], [[1, 2]], what="contains with a number")
     expect("$[?1 in @]", ["1", [1], {"1": 1}, 1, None], [[1]], what="in with a non-string needle")
